@@ -48,7 +48,7 @@ fn state() -> &'static State {
             for (f, data) in b.files.iter().zip(b.data.iter()) {
                 std::fs::write(d.join(f), data).unwrap();
             }
-            let job = Job { dir: d.to_string_lossy().to_string(), main: b.main.clone(), files: b.files.clone(), index_names: b.index_names.clone(), addresses: b.addresses.clone(), full: true };
+            let job = Job { dir: d.to_string_lossy().to_string(), main: b.main.clone(), files: b.files.clone(), index_names: b.index_names.clone(), addresses: b.addresses.clone(), full: true, concurrent: 0 };
             pristine.push(run_job(&job));
             bases.push(b);
             dirs.push(d);
@@ -102,7 +102,7 @@ fuzz_target!(|data: &[u8]| {
     for (fi, d) in &changed {
         std::fs::write(st.dirs[bi].join(&base.files[*fi]), d).unwrap();
     }
-    let job = Job { dir: st.dirs[bi].to_string_lossy().to_string(), main: base.main.clone(), files: base.files.clone(), index_names: base.index_names.clone(), addresses: base.addresses.clone(), full: true };
+    let job = Job { dir: st.dirs[bi].to_string_lossy().to_string(), main: base.main.clone(), files: base.files.clone(), index_names: base.index_names.clone(), addresses: base.addresses.clone(), full: true, concurrent: 0 };
     let d = run_job(&job);
     // same-length scripts only are judged by C05
     let same_len = !edits.iter().any(|e| matches!(e, Edit::Truncate { .. } | Edit::Append { .. }));
